@@ -62,6 +62,17 @@ func Check(c *Case) (res kit.Result) {
 	fr := new(big.Rat).SetFloat64(f)
 	maxN := int64(math.Floor(f * 86400))
 	fq := signal.Frequency(f)
+	// a second rate with the same whole-Hertz part, evaluated in between: the
+	// conversions are pure, so one rate's results must not depend on which rate
+	// was converted just before
+	f2 := math.Floor(f) + 0.37
+	if f2 == f || f2 < 0.01 || f2 > 1e7 {
+		f2 = math.Floor(f) + 0.61
+	}
+	if f2 < 0.01 {
+		f2 = 0.01
+	}
+	fq2 := signal.Frequency(f2)
 
 	ns := append([]int64(nil), c.Ns...)
 	sort.Slice(ns, func(i, j int) bool { return ns[i] < ns[j] })
@@ -72,6 +83,8 @@ func Check(c *Case) (res kit.Result) {
 		}
 		exact := new(big.Rat).SetInt64(n)
 		exact.Mul(exact, giga).Quo(exact, fr) // n * 1e9 / f  nanoseconds
+		_ = fq2.Events(time.Duration(n % 1000000))
+		_ = fq2.Duration(int(n % 1000))
 		d := fq.Duration(int(n))
 		if !within(int64(d), exact) {
 			res.Failf("Frequency(%v).Duration(%d) = %d ns, exact value %s ns: more than half a nanosecond (plus float rounding) off", f, n, int64(d), exact.FloatString(4))
@@ -104,6 +117,8 @@ func Check(c *Case) (res kit.Result) {
 		}
 		exact := new(big.Rat).SetInt64(d)
 		exact.Mul(exact, fr).Quo(exact, giga) // f * d / 1e9 events
+		_ = fq2.Duration(int(d % 1000))
+		_ = fq2.Events(time.Duration(d % 1000000))
 		e := fq.Events(time.Duration(d))
 		if !within(int64(e), exact) {
 			res.Failf("Frequency(%v).Events(%d ns) = %d, exact value %s: more than half an event (plus float rounding) off", f, d, e, exact.FloatString(4))
